@@ -139,6 +139,11 @@ class BitString(Type):
         return clean_value == clean_default
 
     def encode(self, data, encoded, values=None):
+        if self.has_named_bits:
+            # X.690 11.2.2: trailing zero bits are removed when the
+            # type has a named bit list.
+            data = clean_bit_string_value(data, True)
+
         number_of_bytes, number_of_rest_bits = divmod(data[1], 8)
         data = bytearray(data[0])
 
